@@ -479,7 +479,7 @@ pub fn comment_sequences() -> Vec<String> {
 /// expression hides the closing bracket inside a string, a nested comment or directive, or a line comment
 pub fn directive_expressions() -> Vec<String> {
     let mut out = vec![];
-    let bodies = ["B = '}'", "{$i foo} = 0", "A // c }\n > 1", "(* x *) > 1", "'*)' <> s", "Defined(X)", "{ c } or {$define y} z", "s = '' '}' ''", "", " "];
+    let bodies = ["don't", "x = 'abc", "s = '''\nit's }\n'''", "B = '}'", "{$i foo} = 0", "A // c }\n > 1", "(* x *) > 1", "'*)' <> s", "Defined(X)", "{ c } or {$define y} z", "s = '' '}' ''", "", " "];
     for kw in ["if", "elseif", "ELSEIF", "ElseIf", "IF", "ifopt", "elseif\t"] {
         for body in bodies {
             for (open, close) in [("{$", "}"), ("(*$", "*)")] {
@@ -488,6 +488,7 @@ pub fn directive_expressions() -> Vec<String> {
                 out.push(format!("{{$if a}} y; {d} x; {{$endif}}\n"));
                 out.push(format!("begin\n  z := 1 {d} + 2 {{$endif}};\nend.\n"));
                 out.push(format!("a {d}"));
+                out.push(format!("{d}\n  x := 'q';\n  y := '}}';\n"));
             }
         }
     }
